@@ -73,7 +73,7 @@ where
             left: Default::default(),
             right: Default::default(),
             buffer: Default::default(),
-            last_seen: Default::default(),
+            last_seen: Timestamp::MIN,
             upper_bound,
             lower_bound,
             received_restart: false,
@@ -155,7 +155,7 @@ where
                 assert!(self.right.is_empty());
 
                 self.received_restart = false;
-                self.last_seen = Default::default();
+                self.last_seen = Timestamp::MIN;
 
                 return StreamElement::FlushAndRestart;
             }
